@@ -187,6 +187,8 @@ class NexusFitter(object):
         self._limited_pars.update({name: limits})
 
     def unlimit_parameter(self, name):
+        if name not in self._fit_par_names:
+            raise ValueError("Cannot unlimit parameter: Unknown fit parameter: %r!" % (name,))
         self._minimizer.unlimit(name)
         self._limited_pars.pop(name, None)
 
